@@ -106,7 +106,7 @@ def attrs(t):
         return a.copy(extent="self" if a.extent != "greedy" else "greedy", size=None, ctxfree=a.ctxfree and is_const(t[1]))
     if k == "NullTerminated":
         a = attrs(t[1])
-        return A("self", kind=a.kind, seeks=a.seeks or not t[4], ctxfree=a.ctxfree, buildnone=a.buildnone, nullable=not t[5])
+        return A("self", kind=a.kind, seeks=a.seeks or not t[4], ctxfree=a.ctxfree, buildnone=a.buildnone, nullable=(not t[5]) or (not t[4]))
     if k == "NullStripped":
         a = attrs(t[1])
         return A("greedy", nullable=True, kind=a.kind, seeks=a.seeks, ctxfree=a.ctxfree, buildnone=a.buildnone)
@@ -195,6 +195,36 @@ def attrs(t):
     raise ValueError("attrs: %r" % (t,))
 
 
+def accepts_none(t):
+    """build(None) succeeds although None is not a value the term parses to (Flag uses truthiness): 'absent' and 'falsy' collide"""
+    k = t[0]
+    if k == "Flag":
+        return True
+    a = attrs(t)
+    if a.buildnone:
+        return True
+    if k in ("Struct", "Sequence", "LazyStruct"):
+        return all(accepts_none(s) for _, s in t[1])
+    if k in ("Array", "GreedyRange", "RepeatUntil", "PrefixedArray", "Enum", "FlagsEnum", "Mapping", "RawCopy", "FocusedSeq"):
+        if k == "FocusedSeq":
+            return all(accepts_none(s) for _, s in t[2])
+        return False
+    if k == "Select":
+        return any(accepts_none(s) for s in t[1])
+    if k == "IfThenElse":
+        return accepts_none(t[2]) or accepts_none(t[3])
+    if k == "Switch":
+        return any(accepts_none(s) for _, s in t[2]) or (t[3] is None or accepts_none(t[3]))
+    c = R.child(t)
+    if c is not None:
+        return accepts_none(c)
+    if k == "If":
+        return True
+    if k == "ProcessRotateLeft":
+        return accepts_none(t[3])
+    return False
+
+
 def comp_attrs(subs, kind):
     aa = [attrs(s) for s in subs]
     if all(a.extent in ("fixed", "zero") for a in aa):
@@ -263,7 +293,8 @@ def tier1():
     for sub in (BYTE, I(2, False, "l"), ["VarInt"]):
         for labels in ([], [["a", 1]], [["a", 1], ["b", 2]], [["a", 1], ["b", 2], ["c", 1]], [["z", 0], ["m", 255]]):
             out.append(["Enum", sub, labels])
-        for labels in ([], [["a", 1]], [["a", 1], ["b", 2], ["c", 4]], [["z", 0], ["m", 6], ["hi", 128], ["a", 1]]):
+        for labels in ([], [["a", 1]], [["a", 1], ["b", 2], ["c", 4]], [["z", 0], ["m", 6], ["hi", 128], ["a", 1]],
+                       [["x", 1], ["w", 2], ["r", 4], ["rw", 6], ["rwx", 7]]):
             out.append(["FlagsEnum", sub, labels])
         for labels in ([["x", 1], ["y", 2]], [["x", 1], ["dup", 1], ["z", 0]]):
             out.append(["Mapping", sub, labels])
@@ -288,8 +319,35 @@ def leaves3():
 
 # ------------------------------------------------------------------------------ wrappers
 
-def region_filling(x):
-    return attrs(x).extent == "greedy"
+def fills(t):
+    """always consumes its whole region (a GreedyRange stops at the first failing element and ignores the rest, so it does not)"""
+    k = t[0]
+    if k in ("GreedyBytes", "GreedyString"):
+        return True
+    if k in ("Hex", "HexDump", "RawCopy", "Rebuild", "Default", "OneOf", "NoneOf", "NullStripped", "BitsSwapped", "Optional"):
+        return fills(t[1])
+    if k == "NullTerminated":
+        return False
+    if k in ("ProcessXor",):
+        return fills(t[2])
+    if k == "ProcessRotateLeft":
+        return fills(t[3])
+    if k == "If":
+        return t[1] is True and fills(t[2])
+    if k == "IfThenElse":
+        return is_const(t[1]) and fills(t[2] if t[1] else t[3])
+    if k == "Switch" and is_const(t[1]):
+        for ck, sub in t[2]:
+            if ck == t[1]:
+                return fills(sub)
+        return t[3] is not None and fills(t[3])
+    if k in ("Struct", "Sequence"):
+        return bool(t[1]) and fills(t[1][-1][1])
+    if k == "FocusedSeq":
+        return bool(t[2]) and fills(t[2][-1][1])
+    if k == "Select":
+        return all(fills(x) for x in t[1])
+    return False
 
 
 def wrappers(x, strict=True, small=False):
@@ -303,9 +361,13 @@ def wrappers(x, strict=True, small=False):
         out.append(["Prefixed", lf, x, False])
         if lf[0] == "Int":
             out.append(["Prefixed", lf, x, True])
+    # explicit-size regions pad with zeros: in strict mode the child must either fill the region or be unable to read the padding as
+    # data / to succeed on nothing (an absent Optional followed by padding re-parses as a present value)
+    sizable = (not strict) or fills(x) or (not greedy and not a.nullable)
     for n in ((2, 4) if small else (0, 2, 4)):
-        out.append(["FixedSized", n, x])
-    if not greedy:
+        if sizable:
+            out.append(["FixedSized", n, x])
+    if not greedy and sizable:
         for n, pat in ((2, b"\x00"), (4, b"\xff")):
             out.append(["Padded", n, x, pat])
         for m, pat in ((2, b"\x00"), (4, b"\xff")):
@@ -315,11 +377,17 @@ def wrappers(x, strict=True, small=False):
     if not small:
         nts += [(b"\x00", True, False, True), (b"\x00\x00", True, True, False), (b"\x00\x00", False, False, True), (b"\x01", False, True, True)]
     for term, inc, cons, req in nts:
-        if strict and not (greedy or not inc):
-            pass
+        if strict and (not fills(x) or inc or not req):
+            # strict = compositions whose byte/value round trip is representable: the child must fill the region (a fixed-size
+            # child may itself encode the terminator), include=True is parse-only by documentation ("building builds the
+            # subcon and then writes the term", so the terminator is written twice) and require=False accepts unterminated input
+            # that build always terminates (which overflows an enclosing fixed-size region)
+            continue
         out.append(["NullTerminated", x, term, inc, cons, req])
-    if greedy or not strict:
+    if fills(x) or not strict:
         for pad in (b"\x00", b"\x00\x00", b"\x00\x01"):
+            if strict and len(pad) > 1 and not (pad == b"\x00\x00" and x[0] == "GreedyString" and R.unit_of(x[1]) == 2):
+                continue    # multi-byte pads are for data made of whole units (their use in PaddedString); see DESIGN 2.1
             out.append(["NullStripped", x, pad])
         out.append(["ProcessXor", 0x20, x])
         if not small:
@@ -338,7 +406,7 @@ def wrappers(x, strict=True, small=False):
                 out.append(["RepeatUntil", ["objcmp", "==", 1], x])
             for cf in ((BYTE,) if small else (BYTE, ["VarInt"], I(2, False, "l"))):
                 out.append(["PrefixedArray", cf, x])
-    if not a.nullable and not a.buildnone:
+    if not a.nullable and not a.buildnone and not (strict and accepts_none(x)):
         out.append(["Optional", x])
         out.append(["Select", [["ConstB", b"\xfe\xfd"], x]])
     out.append(["If", True, x])
@@ -350,9 +418,10 @@ def wrappers(x, strict=True, small=False):
     out.append(["Switch", 1, [[1, x], [2, BYTE]], None])
     if a.extent == "fixed" and a.size >= 1 and a.ctxfree:
         out.append(["ByteSwapped", x])
-    if a.extent == "fixed" or ((greedy or not strict) and not a.seeks):
+    if a.extent == "fixed" or ((fills(x) or not strict) and not a.seeks):
         out.append(["BitsSwapped", x])      # unsized child: streaming implementation, which cannot seek (documented)
-    out.append(["RawCopy", x])
+    if not (strict and a.seeks):
+        out.append(["RawCopy", x])      # RawCopy.data is what the child consumed: a child that un-reads (consume=False) is outside strict
     if a.kind in ("int", "bytes", "dict"):
         out.append(["Hex", x])
     if a.kind in ("bytes", "dict"):
@@ -360,8 +429,10 @@ def wrappers(x, strict=True, small=False):
     if a.kind == "int":
         out.append(["OneOf", x, [0, 1, 2, 127, 255, 300]])
         out.append(["NoneOf", x, [0, 255]])
-        out.append(["Default", x, 1])
-        out.append(["Rebuild", x, 2])
+        if not (strict and a.nullable):
+            out.append(["Default", x, 1])
+        if not strict:
+            out.append(["Rebuild", x, 2])   # a constant Rebuild is not a function of the data: parse(build(parse(x))) differs by design
     out.append(["Struct", [["f0", x]]])
     out.append(["Struct", [["f0", BYTE], ["f1", x]]])
     if not greedy:
@@ -403,14 +474,20 @@ def tier5(strict=True):
 def wrappers12(x, strict=True):
     a = attrs(x)
     greedy = a.extent == "greedy"
-    out = [["Prefixed", BYTE, x, False], ["Prefixed", I(2, False, "l"), x, True], ["FixedSized", 4, x],
-           ["NullTerminated", x, b"\x00", False, True, True], ["Struct", [["f0", BYTE], ["f1", x]]], ["If", True, x], ["RawCopy", x]]
+    out = [["Prefixed", BYTE, x, False], ["Prefixed", I(2, False, "l"), x, True], ["Struct", [["f0", BYTE], ["f1", x]]], ["If", True, x]]
+    sizable = (not strict) or fills(x) or (not greedy and not a.nullable)
+    if sizable:
+        out.append(["FixedSized", 4, x])
+    if not (strict and a.seeks):
+        out.append(["RawCopy", x])
+    if not strict or fills(x):
+        out += [["NullTerminated", x, b"\x00", False, True, True], ["NullStripped", x, b"\x00"], ["ProcessXor", 0x20, x]]
     if not greedy:
-        out += [["Padded", 4, x, b"\x00"], ["Aligned", 2, x, b"\xff"], ["Array", 2, x]]
+        if sizable:
+            out += [["Padded", 4, x, b"\x00"], ["Aligned", 2, x, b"\xff"]]
+        out.append(["Array", 2, x])
         if not a.nullable:
             out += [["GreedyRange", x], ["PrefixedArray", BYTE, x]]
-    elif not strict or greedy:
-        out += [["NullStripped", x, b"\x00"], ["ProcessXor", 0x20, x]]
     return out
 
 
